@@ -86,7 +86,7 @@ _kf = json.load(open(os.path.join(ROOT, "known_findings.json")))
 def _suffix(pid):
     n_known = len([f for f in _kf["findings"] if f["property"] == pid])
     n_fixed = len([f for f in _kf["fixed"] if f"property={pid} " in f])
-    n_seeded = len([d for d in os.listdir(os.path.join(ROOT, "seeded")) if d.split("-")[0].rstrip("bcdefghij") == pid])
+    n_seeded = len([d for d in os.listdir(os.path.join(ROOT, "seeded")) if d.split("-")[0].rstrip("abcdefghijklmnopqrstuvwxyz") == pid])
     return (f" Units labelled bounded, the native stand-ins and the scenario corpus (recorded scenarios and scenario oracles replayed natively on every run) are bounded checks and are not counted as proved."
             f" On the current tree: {n_known} recorded known finding(s) (printed as KNOWN-FINDING, see known_findings.json), {n_fixed} defect(s) of this property repaired in /repo;"
             f" {n_seeded} independently seeded property-breaking change(s) are all reported (canaries in the thorough tier).")
